@@ -45,5 +45,19 @@ func Run(cfg hx.Config) (*hx.Meta, error) {
 	if err := y.Run(cfg, meta); err != nil {
 		return nil, err
 	}
+	// ... and types recursive through a map, with pairs of Equal two-level trees whose inner maps outgrow
+	// every map of the type hashed before in the process (scratch state kept between calls shows when it has
+	// to grow): the pairs are hashed FIRST, in ascending size, then every value alone, then all pairs
+	vr2 := *vr
+	vr2.Cases = func(idx int, t *ga.Type, vals []*ga.Val, r *hx.Rand, out *strings.Builder) {
+		for i := 0; i+1 < len(vals); i += 2 {
+			fmt.Fprintf(out, "hasheq %d %s %s\n", idx, vals[i].Sexp(), vals[i+1].Sexp())
+		}
+		vr.Cases(idx, t, vals, r, out)
+	}
+	z := &ga.ExtraRun{VR: &vr2, Name: "recmaps", Types: cat.RecMapShapesR5(), Pool: ga.RecMapPoolR5, Probe: cfg.Tier == "thorough"}
+	if err := z.Run(cfg, meta); err != nil {
+		return nil, err
+	}
 	return meta, nil
 }
